@@ -689,7 +689,7 @@ def run_backend(case):
             stored.append([float(x) for x in res.get_result_times(ob)])
         except ValueError:
             stored.append([])
-    run.update(ok=True, T=T, fed=fed, stored=stored,
+    run.update(ok=True, T=T, fed=fed, stored=stored, snaps=[], d=d, n=n, one_idx=one_idx,
                own_state=None if case["dflt"] == "Full" else union)
     if res.total_duration != T or tuple(res.atom_order) != tuple(f"q{i}" for i in range(n)):
         bad("results:header", "total_duration / atom_order of the results differ from the sequence")
